@@ -19,8 +19,8 @@ pub const SPEC: PropSpec = PropSpec {
 		"the reference encoder/decoder (engine/src/refavro) implements the Avro 1.11 binary encoding correctly",
 		"decimals kept within the documented 16-byte / 96-bit / scale<=28 limits; unions are valid per the spec",
 	],
-	cases: (40_000, 4_000_000),
-	secs: (45, 600),
+	cases: (50_000_000, 4_000_000_000),
+	secs: (30, 600),
 	required: &["ok_roundtrips", "typed_fixture_roundtrips"],
 	run_case,
 	once: None,
